@@ -91,6 +91,13 @@ def fintlist(alist):
     return outlist
 
 
+def fnumber(value):
+    """number (strings are converted to float, numbers are kept as-is)"""
+    if isinstance(value, str):
+        value = float(value)
+    return value
+
+
 def lcstr(astr):
     """lower-case string"""
     return astr.lower()
@@ -105,4 +112,5 @@ func_types = {
     fint: numbers.Integral,
     fintlist: list,
     float: numbers.Number,
+    fnumber: numbers.Number,
     lcstr: str}
